@@ -63,6 +63,10 @@ CHECKS = {
          "The Go runtime's own checks (nil dereference, bounds, type assertion, stack exhaustion) are the sanitizer; the monitor observes them at the boundary (recover() around every library call, journalled worker processes, exit status and stderr of the binary, watchdog). Workload: the exhaustive list of single structural mutations of 25 base documents, sampled multi-mutations, byte-level mutations, run through list, list --exposure, diff both ways, the eval engine (insert, query, delete) and the binary; the thorough tier repeats a slice under a -race (checkptr) build. Held on the K mutated inputs in the evidence.",
          "Every crash is visible to recover(), the journal or the child's exit status; watchdog 180 s per case.",
          "runtime monitoring: crash/termination monitor (runtime checks as sanitizer) over structural input mutation", "DESIGN.md §5 C12"),
+ 'C10': ('exploration',
+         "Reference-model monitor for the Ingress/Route -> Service -> workload chain composed with the policy model for an arbitrary unlabelled source; every workload's {ingress-controller} line is compared with the model (presence, exact ports) and blocked backends must be named by a warning. The committed witness of the known finding (Ingress number read as targetPort) is replayed first. Held on the K worlds in the evidence.",
+         "Designations the statement leaves ambiguous are not generated; service selectors non-empty; service port protocols TCP/defaulted.",
+         "runtime monitoring: reference-model oracle over observed list results and warnings", "DESIGN.md §5 C10"),
 }
 
 NOT_YET = "check not built yet (construction in progress, see DESIGN.md section 9)"
